@@ -407,6 +407,12 @@ func symbolicStringFunc(fr *frame, name string, args []value) (value, bool) {
 		// decimal rendering of a symbolic number: an opaque string. Nothing
 		// is known about it, so anything that branches on it is explored both
 		// ways; native path validation catches a use that matters.
+		if si, ok := fr.i.ps.resolveValue(args[0]).(symInt); ok {
+			return symStr{opaqueStringOf("itoa", si.t)}, true
+		}
+		if sb, ok := fr.i.ps.resolveValue(args[0]).(symBool); ok {
+			return symStr{opaqueStringOf("btoa", sb.t)}, true
+		}
 		return symStr{mkVar(fr.i.ps.freshName("itoa"), sortStr)}, true
 	case "strings.ToLower", "strings.ToUpper", "strings.TrimSpace":
 		return nil, false
@@ -421,3 +427,10 @@ func (ps *pathState) freshName(prefix string) string {
 }
 
 var _ = types.Typ
+
+// opaqueStringOf returns the uninterpreted textual rendering of a symbolic
+// value: a string variable named after the term, so that equal terms render
+// equally (the rendering is a function of the value).
+func opaqueStringOf(kind string, t *Term) *Term {
+	return mkVar("$"+kind+"("+t.SMT()+")", sortStr)
+}
